@@ -205,6 +205,9 @@ def gen_program(rng, feat=None, size=None):
             neg = feat["negation"] and rng.random() < 0.3
             if neg:
                 cands = [n for n in preds if preds[n][1] < stratum]
+                lower_derived = [n for n in cands if n.startswith("p")]
+                if lower_derived and rng.random() < 0.6:
+                    cands = lower_derived  # negation over derived (possibly recursive) predicates
             else:
                 cands = [n for n in preds if preds[n][1] < stratum]
                 same = [n for n in preds if preds[n][1] == stratum]
